@@ -92,7 +92,7 @@ func gen(t *rapid.T) Script {
 			}
 			continue
 		case "new":
-			op.Mode = rapid.SampledFrom([]string{"finish", "finish", "hang", "hang", "read-body"}).Draw(t, "mode")
+			op.Mode = rapid.SampledFrom([]string{"finish", "finish", "hang", "hang", "read-body", "push"}).Draw(t, "mode")
 			op.End = rapid.Bool().Draw(t, "end")
 			op.Prio = rapid.IntRange(0, 3).Draw(t, "prio") == 0
 			op.Skip = rapid.SampledFrom([]int{0, 0, 0, 1, 3}).Draw(t, "skip")
@@ -212,10 +212,16 @@ func exec(t *testing.T, s Script) (viol *vstat.Violation, classes map[string]boo
 	classes = map[string]bool{}
 	msg := rig.Bubble(t, func() {
 		cli, srvSide := rig.NewPipe()
+		pushRelease := make(chan struct{})
+		defer close(pushRelease)
 		var hl handlerLog
 		var smu sync.Mutex
 		byPath := map[string]*mstream{}
 		handler := http.HandlerFunc(func(w http.ResponseWriter, r *http.Request) {
+			if strings.HasPrefix(r.URL.Path, "/pushed/") {
+				<-pushRelease // a pushed stream stays open for the rest of the history
+				return
+			}
 			hl.mu.Lock()
 			hl.started = append(hl.started, r.URL.Path)
 			hl.mu.Unlock()
@@ -226,6 +232,16 @@ func exec(t *testing.T, s Script) (viol *vstat.Violation, classes map[string]boo
 				return
 			}
 			switch st.mode {
+			case "push":
+				// the handler pushes a resource (the client has not disabled push) and stays busy; the pushed
+				// stream is the server's, not the client's: it does not use up the limit the server advertised
+				if pu, ok := w.(http.Pusher); ok {
+					pu.Push("/pushed"+r.URL.Path, nil)
+				}
+				select {
+				case <-st.release:
+				case <-r.Context().Done():
+				}
 			case "hang":
 				select {
 				case <-st.release:
@@ -259,8 +275,12 @@ func exec(t *testing.T, s Script) (viol *vstat.Violation, classes map[string]boo
 		running := func() int { // handlers the model knows to be running
 			n := 0
 			for _, st := range streams {
-				if st.started && !st.serverClosed && (st.mode == "hang" && !st.released || st.mode == "read-body" && !st.clientEnded && !st.clientReset) {
+				if st.started && !st.serverClosed && ((st.mode == "hang" || st.mode == "push") && !st.released || st.mode == "read-body" && !st.clientEnded && !st.clientReset) {
 					n++
+				}
+				if st.started && st.mode == "push" {
+					n++ // the handler of the stream it pushed, which stays busy to the end (handlers of pushed streams count
+					// against the server's own cap on running handlers, which may defer - never refuse - a request)
 				}
 			}
 			return n
@@ -446,7 +466,11 @@ func exec(t *testing.T, s Script) (viol *vstat.Violation, classes map[string]boo
 		}
 		idle := func() uint32 { return maxID + 2 + 40 } // an id nobody has used
 		idleFor := func(op Op) uint32 {
-			if op.Variant == "even-low" && maxID >= 3 {
+			pushing := false
+			for _, st := range streams {
+				pushing = pushing || st.mode == "push"
+			}
+			if op.Variant == "even-low" && maxID >= 3 && !pushing { // (with server push, stream 2 may be the server's)
 				classes["frame-on-idle-even-stream-below-the-highest-client-stream"] = true
 				return 2
 			}
@@ -499,6 +523,17 @@ func exec(t *testing.T, s Script) (viol *vstat.Violation, classes map[string]boo
 				}
 				writeBlock(id, peer.Encode(hf), op.End, pr, op.Cont, interrupted)
 			case "headers_malformed":
+				if op.Variant == "connection-header" || op.Variant == "te-gzip" {
+					// these are answered by a server-generated 400 from a handler of its own; with a pushed stream's
+					// handler occupying a slot that handler may be deferred and the stream linger: not modelled
+					pushing := false
+					for _, st := range streams {
+						pushing = pushing || st.mode == "push"
+					}
+					if pushing {
+						continue
+					}
+				}
 				id := maxID + 2
 				if maxID == 0 {
 					id = 1
